@@ -108,6 +108,38 @@ class Mon:
                 self.viol[key] = dict(key=key, desc='take_reset() after a step had changed %s: %s' % (changed[:4], sig), replay=dict(desc, history=hist), count=0)
             self.viol[key]['count'] += 1
 
+
+    def confirm_store(self, cpu, kind, word, desc, odd, ctxkey):
+        from vf import machine as M
+        from vf.common import exc_signature
+        scen = self.scen
+        r = cpu.registers
+        hist = ['%s %#x' % (kind, word)]
+        thumb = kind != 'arm'
+        for mode in sorted({r.cpsr.m, 0b10011, 0b10001, 0b11111}):
+            try:
+                r.cpsr.value = (0x1C0 | mode | (0x20 if thumb else 0))          # little-endian data, no IT block
+                r.sctlr.m = 0
+                r.set(13, 0x7000)
+                r.branch_to(scen.CODE)
+                M.put_code(cpu, scen.CODE, 0xE92D5FFF, 't32' if thumb else 'arm')   # PUSH {r0-r12, lr}
+                res, sig = scen.step(cpu)
+            except Exception as ex:
+                res, sig = 'host', exc_signature(ex)
+            hist.append('PUSH {r0-r12,lr} in mode %s' % format(mode, '05b'))
+            self.res['evaluations'] += 1
+            self.bump('confirmation_steps_after_out_of_range_register')
+            if res == 'host':
+                key = 'C18|%s|%s:%s|storing-%s-after-a-step-left-it-out-of-range' % (sig[0], sig[1].split('/')[-1], sig[2], odd[0])
+                if key not in self.viol:
+                    self.viol[key] = dict(key=key, desc='%s at %s:%s line %s when the registers are stored after word %#x (%s) had left %s '
+                                          'holding a value outside 0..2^32-1: history %s (%s)' % (sig[0], sig[1], sig[2], sig[3], word, kind, odd[:4],
+                                                                                                  hist, ctxkey),
+                                          replay=dict(desc, history=hist), count=0)
+                self.viol[key]['count'] += 1
+                self.bump('outcome_host_error')
+                return
+
     def one(self, kind, word, tag, itpos=None, ctxkey=None, mode=None):
         from vf import observe
         rng = self.rng
@@ -158,6 +190,15 @@ class Mon:
             self.res['sets'].setdefault('attributes_added_or_retyped_by_a_step', set()).add(','.join(changed)[:80])
             self.confirm_taint(cpu, kind, word, desc, changed, ctxkey)
             self.ctxs.pop(ctxkey, None)
+        elif k != 'host':
+            # a core register left holding something that is not a 32-bit number (the range invariant of C10) is not a
+            # host error yet; storing it is the next thing a program does with it: all registers are pushed, little-endian,
+            # on the same instance, and a host error that follows is reported with the two-step history
+            odd = [n_.name for n_, v_ in getattr(cpu.registers, '_R', {}).items() if not (isinstance(v_, int) and 0 <= v_ <= 0xFFFFFFFF)]
+            if odd:
+                self.bump('steps_leaving_a_core_register_out_of_range')
+                self.confirm_store(cpu, kind, word, desc, odd, ctxkey)
+                self.ctxs.pop(ctxkey, None)
         executed = type(cpu.executed_opcode).__name__
         post_mode = cpu.registers.cpsr.m
         if k == 'host':
